@@ -51,7 +51,9 @@ def nlit(n, t):
 
 COQ_KW = {"end", "match", "with", "in", "fix", "fun", "let", "return", "as", "at", "if", "then", "else",
           "forall", "exists", "Type", "Prop", "Set", "where", "using", "for", "cofix", "is", "P", "I", "E", "fuel",
-          "dbg", "next", "peek", "slice", "pos", "ret", "bind", "fail", "part"}
+          "dbg", "next", "peek", "slice", "pos", "ret", "bind", "fail", "part", "advance", "bump", "peek_n", "peek_ahead",
+          "slice_skip", "remaining", "expect", "space", "newline", "rest", "pre", "take", "drop", "shift", "commit",
+          "length", "first_bad", "load_block", "rest_bytes", "fallback", "W"}
 
 
 def cid(name):
@@ -379,6 +381,9 @@ class FnTr:
             if m == "len" and not args:
                 return ("remaining", "usize")
             raise TranslationError("Bytes method " + m)
+        if e[0] == "mcall" and e[2] == "len" and not e[3] and e[1][0] == "mcall" and e[1][2] == "as_ref" and not e[1][3] \
+                and e[1][1][0] == "path" and self.is_cursor(e[1][1][1]):
+            return ("remaining", "usize")
         if e[0] == "cast" and e[2] == "usize" and e[1][0] == "mcall" and e[1][2] == "as_ptr" and not e[1][3] \
                 and e[1][1][0] == "mcall" and e[1][1][2] == "as_ref" and not e[1][1][3] \
                 and e[1][1][1][0] == "path" and self.is_cursor(e[1][1][1][1]):
@@ -408,6 +413,9 @@ class FnTr:
                 pre, (t,) = self.resolve(term)
                 return pre + "iret %s" % t
             return k(term, ty)
+        sp = self.g.special_expr(self, e, cont) if hasattr(self.g, "special_expr") else None
+        if sp is not None:
+            return sp
         p = self.pure(e)
         if p is not None:
             term, ty, guards = p
@@ -427,6 +435,9 @@ class FnTr:
             return self.ev(e[1], k)
         if kd == "mexp":
             return self.ev(e[2], k)
+        if kd == "mcall" and e[1][0] == "path" and self.is_cursor(e[1][1]) and len(e[3]) == 1 \
+                and e[3][0][0] != "rawterm" and self.pure(e[3][0]) is None:
+            return self.ev(e[3][0], lambda t, ty: self.ev(("mcall", e[1], e[2], [("rawterm", t, ty)]), k))
         bp = self.bytes_prim(e)
         if bp is not None:
             term, ty = bp
@@ -455,6 +466,8 @@ class FnTr:
         if kd in ("loop", "while"):
             return self.ev_loop(e, k)
         if kd == "return":
+            if e[1] is None and self.rty == "unit":
+                return "ithrow (Ret tt)"
             return self.result(e[1], "return")
         if kd == "break":
             lab = self.find_label(e[1])
@@ -1013,6 +1026,8 @@ class FnTr:
         """e : Result<Status<T>> as the function result (tail) or the operand of `return`"""
         done = (lambda t: "iret %s" % t) if mode == "tail" else (lambda t: "ithrow (Ret %s)" % t)
         if e is None:
+            if self.rty == "unit":
+                return "iret tt" if mode == "tail" else "ithrow (Ret tt)"
             raise TranslationError("bare return")
         k = e[0]
         if k in ("paren",):
@@ -1096,6 +1111,8 @@ class FnTr:
 
     # ---------------------------------------------------------- whole function
     def translate(self):
+        if self.rty == "unit" and self.ast[2] is not None:
+            return self.stmts(self.ast[1] + [("expr", self.ast[2])], None, lambda t, ty: "iret tt")
         body = self.stmts_result(self.ast[1], self.ast[2], "tail") if self.ast[2] is not None \
             else self.stmts(self.ast[1], None, lambda t, ty: "iret tt")
         return body
